@@ -116,6 +116,14 @@ CLAIMED = {
             "Handler registry: each of the 34 operation-validation rules of spec section 5 (as split into diagnostic kinds) has a diagnostic of the matching kind constructed in a function reachable from the executable validation entries and, for construct-specific rules, through the validator of that construct (values, directives, field arguments). The missing handler for 5.6.3 Input Object Field Uniqueness was found by this rule and repaired. Plus the per-operation scope of the validated-fragments memo (the per-operation variable rules 5.8.3/5.8.5 are otherwise applied with another operation's variables).",
             "Presence of a handler per rule is a necessary condition only; that each handler's condition equals the spec's, i.e. verdict agreement with graphql-js, is not decided (not decidable by this family).",
             "call-graph reachability from entry points to diagnostic construction sites (aggregates in MIR) against a rule->variant registry; who-writes / provenance for the memo scope", False),
+    "C32": ("other",
+            "The determinism sentence decided structurally over all 517 library functions of apollo-smith (no entropy source other than the caller's Unstructured / RandomProvider; no std HashMap/HashSet iteration into output except one allow-listed infeasible fallback), plus four structural conditions of validity: the interface-field backfill, which reads only direct parents, iterates a topological (parents-first) order of the implements graph; type_name() returns only names that passed the `not yet used` loop and records them; the name alphabets are inside the GraphQL Name grammar; unused fragments are pruned by reachability from operations.",
+            "That every generated document parses and validates is not decided. arbitrary::Unstructured and petgraph::toposort are trusted.",
+            "resolved-callee inventory over rustc MIR, loop-source provenance (may-derive slice), dominating-edge facts, const evaluation", False),
+    "C33": ("other",
+            "Structural conditions of the generated response shape: collect_fields groups by alias-or-name and recurses into fragments with the same concrete type under a type-condition test on that concrete type; type_condition_matches as a decision table; one concrete type per selection set feeds both field collection and __typename; nulls only under a nullability test; the count and pick passes over an interface's implementers filter identically; union members / enum values are picked from the type's own collection; list values must be generated from the list's item type (the flat generation of nested lists is reported: two known findings).",
+            "The shape of generated data and re-execution over it are not decided. Known findings: generate_field_value flattens nested list types, see known_findings.json.",
+            "decision tables and dominating-edge facts over rustc MIR, typed-HIR guard shape, sibling closure comparison", False),
 }
 
 NOT_APPLICABLE = {
